@@ -132,6 +132,9 @@ func render(x any) string {
 var interned map[string]int64
 
 func tok(x any) int64 {
+	if interned == nil {
+		return 0 // outside a case execution (generation aids only look at success / failure)
+	}
 	r := render(x)
 	if id, ok := interned[r]; ok {
 		return id
@@ -502,6 +505,7 @@ func Exec(ops []hx.T) (norm []hx.T, obs []any, nontrivial bool, seenTags map[str
 	}()
 	seenTags = map[string]bool{}
 	interned = map[string]int64{}
+	defer func() { interned = nil }()
 	inUse := map[int64]bool{} // message types some registered method (of any shape) takes as second parameter
 	note := func(tr []any, esc bool, withCB bool) {
 		inv, ok, bad := 0, 0, 0
